@@ -73,6 +73,10 @@ Variable flt : option (nat * nat).     (* injected fault: (site, k) *)
 
 Definition get : M state := gets (fun s => s).
 
+(* writes together with the closure that restores what the written locations held *)
+Definition logged_writes (w : list (loc * cell)) : M unit :=
+  s <- get ;; block w (map (fun lx => UW (fst lx) (s (fst lx))) w).
+
 (* ------------------------------------------------------------------------------------------------
    SessionCache.update_simple_index / update_composite_index (one function: a simple key is a spec of length 1).
    The writes and the entries appended to the caller's `undo` list form one block. *)
@@ -161,12 +165,10 @@ Definition reverse_remove (re ra : nat) (objs : list oid) (item : oid) : M unit 
   then add_taint TInconsistent ;;; fail EAssert
   else
     let in_added ob := g_bool s (LAdded ob ra item) in
-    let last_flag := match rev objs with ob :: _ => in_added ob | [] => false end in     (* the loop variable the closure reads *)
-    taint_if (existsb (fun ob => negb (Bool.eqb (in_added ob) last_flag)) objs) TRemFlag ;;;
     block (flat_map (fun ob => [(LMod re ra ob, CBool true); (LItem ob ra item, CBool false);
                                 (if in_added ob then (LAdded ob ra item, CBool false) else (LRemoved ob ra item, CBool true))]) objs)
           (flat_map (fun ob => [UW (LItem ob ra item) (CBool true);
-                                (if last_flag then UW (LAdded ob ra item) (CBool true) else UW (LRemoved ob ra item) (CBool false))]
+                                (if in_added ob then UW (LAdded ob ra item) (CBool true) else UW (LRemoved ob ra item) (CBool false))]
                                ++ (if g_bool s (LMod re ra ob) then [] else [UW (LMod re ra ob) (CBool false)])) objs).
 
 (* ------------------------------------------------------------------------------------------------ Attribute.__set__ as a reverse call
@@ -216,7 +218,7 @@ Definition update_reverse (del : oid -> M unit) (o e a : nat) (old new : value) 
   end.
 
 (* ------------------------------------------------------------------------------------------------ Set.__set__ *)
-(* the bookkeeping after the try block (never undone): items := new; added / removed as the code computes them (repo 83f8eb8: the locals
+(* the bookkeeping after the try block (as a reverse call it registers a closure that restores the SetData and modified_collections): items := new; added / removed as the code computes them (repo 83f8eb8: the locals
    are kept in sync; repo 11753a1: for a one-to-many collection the removals were already recorded by reverse_remove through the items) *)
 Definition set_tail (direct : bool) (m2m : bool) (o e a : nat) (newl to_add to_remove : list oid) : M unit :=
   s <- get ;;
@@ -227,7 +229,7 @@ Definition set_tail (direct : bool) (m2m : bool) (o e a : nat) (newl to_add to_r
   let R1 := if is_empty to_add then R else minus R to_add in
   let A2 := if m2m && negb (is_empty to_remove) then minus A1 to_remove else A1 in
   let R2 := if m2m && negb (is_empty to_remove) then union R1 (minus to_remove A1) else R1 in
-  (if direct then writes else unlogged_writes TSetReverse)
+  (if direct then writes else logged_writes)
     (set_writes (LItem o a) n newl ++ set_writes (LAdded o a) n A2 ++ set_writes (LRemoved o a) n R2 ++ [(LMod e a o, CBool true)]).
 
 Definition set_set (del : oid -> M unit) (direct : bool) (o e a : nat) (newl : list oid) : M unit :=
@@ -248,15 +250,13 @@ Definition set_set (del : oid -> M unit) (direct : bool) (o e a : nat) (newl : l
   set_tail direct (match a_kind rt with KSet => true | _ => false end) o e a newl to_add to_remove.
 
 (* ------------------------------------------------------------------------------------------------ Entity._delete_ *)
-Definition uact_safe (wl : list loc) (u : uact) : bool :=
-  match u with UW l _ => negb (existsb (loc_eqb l) wl) | _ => false end.
-Definition closure_safe (wl : list loc) (c : closure) : bool := forallb (uact_safe wl) c.
-
 Definition key_specs (en : entity) : list (list nat) := map (fun a => [a]) (e_skeys en) ++ e_ckeys en.
 
-Definition del_finish (o e : nat) (st0 : status) (sp : option nat) (id : nat) : M unit :=
+(* the final step of _delete_ and its closure, registered together (so closures and queue pops stay in LIFO order).  st0 / sp are the
+   status and _save_pos_ read when the call started (the code branches on them), pst / psp what they are now (a nested call may have put
+   the object on the queue): the closure restores the latter. *)
+Definition del_finish (o e : nat) (st0 : status) (sp : option nat) : M unit :=
   s <- get ;;
-  lg <- get_log ;;
   let en := get_ent sch e in
   let keys := filter (fun sk => negb (has_none (snd sk))) (map (fun spec => (spec, key_of s o spec)) (key_specs en)) in
   if negb (forallb (fun sk => opt_eqb Nat.eqb (g_idx s e (fst sk) (snd sk)) (Some o)) keys)
@@ -264,16 +264,17 @@ Definition del_finish (o e : nat) (st0 : status) (sp : option nat) (id : nat) : 
   let idxw := map (fun sk => (LIdx e (fst sk) (snd sk), CObj None)) keys in
   let idxu := map (fun sk => UW (LIdx e (fst sk) (snd sk)) (CObj (Some o))) keys in
   let q := g_queue s in
-  let nested := firstn (length lg - id - 1) lg in
+  let pst := g_status s o in
+  let psp := g_savepos s o in
   match st0 with
   | SCreated =>
       let pk := [g_val s o 0] in
       match sp with
       | Some i =>
-          add_taint TDelCreated ;;;
-          taint_if (negb (opt_eqb (opt_eqb Nat.eqb) (nth_error q i) (Some (Some o)) && opt_eqb Nat.eqb (g_idx s e [0] pk) (Some o))) TInconsistent ;;;
-          writes (idxw ++ [(LQueue, CQueue (set_nth q i None)); (LSavePos o, CPos None); (LStatus o, CStatus SCancelled); (LIdx e [0] pk, CObj None)]) ;;;
-          amend id (idxu ++ [UW (LIdx e [0] pk) (CObj (Some o))])
+          if opt_eqb (opt_eqb Nat.eqb) (nth_error q i) (Some (Some o)) && opt_eqb Nat.eqb (g_idx s e [0] pk) (Some o) then
+            block (idxw ++ [(LQueue, CQueue (set_nth q i None)); (LSavePos o, CPos None); (LStatus o, CStatus SCancelled); (LIdx e [0] pk, CObj None)])
+                  ([UDelQueue o (Some i) psp; UW (LStatus o) (CStatus pst)] ++ idxu ++ [UW (LIdx e [0] pk) (CObj (Some o))])
+          else add_taint TInconsistent ;;; fail EAssert
       | None => add_taint TInconsistent ;;; fail EAssert
       end
   | _ =>
@@ -286,10 +287,8 @@ Definition del_finish (o e : nat) (st0 : status) (sp : option nat) (id : nat) : 
       match hole with
       | None => add_taint TInconsistent ;;; fail EAssert
       | Some q1 =>
-          let w := idxw ++ [(LQueue, CQueue (q1 ++ [Some o])); (LSavePos o, CPos (Some (length q1))); (LStatus o, CStatus SMarked)] in
-          taint_if (negb (forallb (closure_safe (map fst w)) nested)) TDelNested ;;;
-          writes w ;;;
-          amend id idxu
+          block (idxw ++ [(LQueue, CQueue (q1 ++ [Some o])); (LSavePos o, CPos (Some (length q1))); (LStatus o, CStatus SMarked)])
+                ([UDelQueue o sp psp; UW (LStatus o) (CStatus pst)] ++ idxu)
       end
   end.
 
@@ -333,11 +332,9 @@ Fixpoint delete (fuel : nat) (o : oid) : M unit :=
       let sp := g_savepos s o in
       let e := g_cls s o in
       let en := get_ent sch e in
-      id <- log_len ;;
-      push [UDelQueue o sp; UW (LStatus o) (CStatus st0)] ;;;
       iterM (del_coll (delete f) o e) (set_attr_ids en) ;;;
       iterM (del_ref (delete f) o e) (ref_attr_ids en) ;;;
-      del_finish o e st0 sp id
+      del_finish o e st0 sp
   end.
 
 Definition del_top : oid -> M unit := delete fuel0.
@@ -556,7 +553,7 @@ Definition op_new (e : nat) (pk : Z) (kw : list (nat * arg)) : M unit :=
   let o := g_next s in
   own LNext (CNat (S o)) ;;; own (LCls o) (CNat e) ;;; own (LStatus o) (CStatus SCreated) ;;; own (LWbits o) (CBits None) ;;;
   own (LSavePos o) (CPos None) ;;; own (LVal o 0) (CVal (VInt pk)) ;;;
-  unlogged_writes TNewPk [(LIdx e [0] [VInt pk], CObj (Some o))] ;;;
+  own (LIdx e [0] [VInt pk]) (CObj (Some o)) ;;;      (* _get_from_identity_map_; removed again by __init__'s except clause *)
   (* for attr, val in avdict.items(): entity attribute order, collections at their own position *)
   iterM (fun j => let at_ := get_attr sch e j in
                   match a_kind at_ with
